@@ -139,7 +139,12 @@ def c13(tier):
         xs = walk(rnd, n, 100, 10000, 150)
         xs[n // 3:n // 3 + 200] = sorted(xs[n // 3:n // 3 + 200])                 # monotone run
         xs[n // 2:n // 2 + 50] = [max(xs)] * 50                                  # repeated peak
-        streams.append({"cfg": cfg, "unit": 100, "mode": "rolling", "eps": [1, 1000000000], "float": "f64", "xs": xs, "k": 10 if tier == "quick" else 200})
+        streams.append({"cfg": cfg, "unit": 100, "mode": "rolling", "eps": [1, 1000000000], "float": "f64", "xs": xs, "k": 10 if tier == "quick" else 200,
+                        "extras": cfg["k"] == "WelfordRolling"})
+        if tier == "quick":
+            # beyond 2^16 values (a sample count in a narrow integer would wrap), sparsely recorded
+            streams.append({"cfg": cfg, "unit": 100, "mode": "rolling", "eps": [1, 1000000000], "float": "f64", "xs": walk(rnd, 70000, 100, 10000, 150), "k": 200,
+                            "extras": cfg["k"] == "WelfordRolling"})
     # a large mean with small variation: any formula that subtracts large sums loses the variance here
     xs2 = [100000000 + v for v in walk(rnd, n // 2, -2000, 2000, 300)]
     streams.append({"cfg": {"k": "WelfordRolling"}, "unit": 100, "mode": "rolling", "eps": [1, 1], "epsp": 12, "float": "f64", "xs": xs2, "k": 10 if tier == "quick" else 200})
@@ -675,7 +680,8 @@ def c16(tier):
             cfg = {"k": k} if k == "WelfordRolling" else {"k": k, "n": n}
             # values k/1000, 10 <= k <= 10000 in multiples of 10: non-zero magnitudes and non-zero steps both span three decades
             long_streams.append({"cfg": cfg, "unit": 1000, "mode": mode, "eps": [1, 1000000], "float": "f64",
-                                 "xs": walk(rnd, n64, 10, 10000, 400, grain=10), "k": 25 if tier == "quick" else 250})
+                                 "xs": walk(rnd, n64, 10, 10000, 400, grain=10), "k": 25 if tier == "quick" else 250,
+                                 "extras": k in ("WelfordOnline", "WelfordRolling")})
             long_streams.append({"cfg": cfg, "unit": 1000, "mode": mode, "eps": [1, 100], "float": "f32",
                                  "xs": walk(rnd, n32, 10, 10000, 400, grain=10), "k": 5})
     # slow drift: a few much longer f64 streams with wide windows, sparsely sampled (the ghost state still sees every input)
